@@ -33,6 +33,9 @@ type Case struct {
 	// "encoded64" ColorFromEncodedColor(color.NRGBA64 of 257*v) -> ToRGBA64 (compared in 8-bit code units).
 	// Used with alpha 255 only, where premultiplied and non-premultiplied pixels coincide.
 	Via string `json:"via,omitempty"`
+	// Before: conversions made immediately before this one, in order (results ignored) - the same pixel on its way to
+	// other destinations: a picture exported to several spaces pixel by pixel
+	Before []Case `json:"before,omitempty"`
 }
 
 func idx(name string) int {
@@ -161,6 +164,10 @@ func check(c Case) (kind, what string, nt bool) {
 	pr := getRef(si, di)
 	var got [3]float64
 	var outA float64
+	for _, b := range c.Before {
+		bs, bd := &sp.Spaces[idx(b.Src)], &sp.Spaces[idx(b.Dst)]
+		ev.Guard(func() { pipelineVia(bs, bd, color.NRGBA{R: b.R, G: b.G, B: b.B, A: b.A}, b.Via) })
+	}
 	if p, msg := ev.Guard(func() { got, outA = pipelineVia(s, d, color.NRGBA{R: c.R, G: c.G, B: c.B, A: c.A}, c.Via) }); p {
 		return "panic", msg, true
 	}
@@ -251,7 +258,7 @@ func TestC04(t *testing.T) {
 		fmt.Println("REPLAY case passed:", c)
 		return
 	}
-	ev.Rule("16 ordered (source,destination) pairs x NRGBA pixels through the README pipeline (opaque pixels also through ColorFromRGBA/ToRGBA, ColorFromEncodedColor of NRGBA and NRGBA64, ToRGBA64, with the adaptation step applied unconditionally - the identity between equal whites - with the adaptation built from the package's XYZ white constants, and from the XYZ each space gives for its own white). quick: 64^3 lattice incl. 0 and 255, all greys, the six cube faces at stride 3, all 256 alphas on 64 colours, rapid pixels; thorough: all 2^24 RGB at alpha 255 per pair plus 256 alphas x 4096 colours. non-trivial = distinct (pair, pixel) whose reference result is out of gamut in some channel or whose pair needs chromatic adaptation")
+	ev.Rule("16 ordered (source,destination) pairs x NRGBA pixels through the README pipeline (opaque pixels also through ColorFromRGBA/ToRGBA, ColorFromEncodedColor of NRGBA and NRGBA64, ToRGBA64, with the adaptation step applied unconditionally - the identity between equal whites - with the adaptation built from the package's XYZ white constants, and from the XYZ each space gives for its own white). quick: 64^3 lattice incl. 0 and 255, all greys, the six cube faces at stride 3, all 256 alphas on 64 colours, rapid pixels (a third directly after the same pixel's conversion to other destinations), and a 12^3 (thorough 33^3) lattice of pixels each sent to every destination in turn on one goroutine; thorough: all 2^24 RGB at alpha 255 per pair plus 256 alphas x 4096 colours. non-trivial = distinct (pair, pixel) whose reference result is out of gamut in some channel or whose pair needs chromatic adaptation")
 	ev.Assume("internal/ref EOTF/OETF, matrix derivation from the declared chromaticities, Bradford adaptation")
 	ev.Set("interval", map[string]float64{"half_step": halfStep, "half_code": 0.5, "slack_codes": slack})
 	var sampleMu sync.Mutex
@@ -366,6 +373,56 @@ func TestC04(t *testing.T) {
 			sampleMu.Unlock()
 		}
 	}
+	// one pixel to every destination in turn (a picture exported to several spaces pixel by pixel), on one goroutine:
+	// each conversion directly follows the same pixel's conversion to another destination
+	{
+		var chain, chainNT int64
+		cstep := ev.Pick(24, 8)
+		stop := false
+		for si := 0; si < len(sp.Spaces) && !stop; si++ {
+			for _, via := range []string{"", "adapt-always", "rgba", "adapt-xyz-constants"} {
+				for r := 0; r < 256+cstep && !stop; r += cstep {
+					for g := 0; g < 256+cstep && !stop; g += cstep {
+						for b := 0; b < 256+cstep && !stop; b += cstep {
+							m := func(v int) uint8 {
+								if v > 255 {
+									return 255
+								}
+								return uint8(v)
+							}
+							var prev *Case
+							order := []int{0, 1, 2, 3, 2, 1, 0}
+							if (r+g+b)/cstep%2 == 1 {
+								order = []int{3, 1, 0, 2, 3}
+							}
+							for _, di := range order {
+								c := Case{Src: sp.Spaces[si].Name, Dst: sp.Spaces[di].Name, R: m(r), G: m(g), B: m(b), A: 255, Via: via}
+								chain++
+								k, w, nt := check(c) // the predecessor has just run: no need to run it again here
+								if nt {
+									chainNT++
+								}
+								if k != "" {
+									if prev != nil {
+										c.Before = []Case{*prev}
+										w += fmt.Sprintf(" - directly after the same pixel went %s->%s", prev.Src, prev.Dst)
+									}
+									ev.Violation("pipeline", c.Src+"->"+c.Dst+"/"+k, w, c)
+									stop = true
+									break
+								}
+								cc := c
+								prev = &cc
+							}
+						}
+					}
+				}
+			}
+		}
+		ev.Eval(chain)
+		ev.NTAdd(chainNT)
+		ev.Class("one-pixel-to-every-destination-in-turn", chain)
+	}
 	ev.RapidChecks(ev.Pick(20000, 200000))
 	ev.RapidSeed(4)
 	rapid.Check(t, func(rt *rapid.T) {
@@ -376,6 +433,18 @@ func TestC04(t *testing.T) {
 		}
 		if rapid.IntRange(0, 2).Draw(rt, "othervia") == 0 {
 			c.Via, c.A = rapid.SampledFrom(vias).Draw(rt, "via"), 255
+		}
+		// a third of the cases directly follow the same pixel's conversion to one or two other destinations
+		if rapid.IntRange(0, 2).Draw(rt, "chained") == 0 {
+			for n := rapid.IntRange(1, 2).Draw(rt, "nbefore"); n > 0; n-- {
+				b := c
+				b.Before = nil
+				b.Dst = sp.Spaces[rapid.IntRange(0, 3).Draw(rt, "beforedst")].Name
+				if c.A == 255 && rapid.Bool().Draw(rt, "beforevia") {
+					b.Via = rapid.SampledFrom(vias).Draw(rt, "bvia")
+				}
+				c.Before = append(c.Before, b)
+			}
 		}
 		ev.Eval(1)
 		k, w, nt := check(c)
